@@ -98,7 +98,8 @@ Expand ==
 Finish ==
     /\ phase = "derive"
     /\ todo = <<>>
-    /\ PrintT(ToJson([kind |-> "sentence", op |-> "", w |-> done]))
+    \* ps: the productions this derivation applied (lets a caller select sentences for production coverage)
+    /\ PrintT(ToJson([kind |-> "sentence", op |-> "", w |-> done, ps |-> {p \in DOMAIN G.prods : used[p] > 0}]))
     /\ phase' = "sentence"
     /\ UNCHANGED <<done, todo, need, nmut, prev, target, lastop, used, cap>>
 
